@@ -109,3 +109,67 @@ package loong64
 //@   ensures[off16] err == nil && (la_fmt(k) == OpFormatType_rj_rd_offset || la_fmt(k) == OpFormatType_rd_rj_offset) ==> fld(x, 10, 16) == uint32(arg.Imm >> 2) & 0xffff && fits_off(arg.Imm, 16)
 //@   ensures[off26] err == nil && la_fmt(k) == OpFormatType_offset ==> fld(x, 10, 16) == uint32(arg.Imm >> 2) & 0xffff && fld(x, 0, 10) == uint32(arg.Imm >> 18) & 0x3ff && fits_off(arg.Imm, 26)
 //@   property C17
+
+// ---------------------------------------------------------------- Wa's own decoder
+//
+// decodeInst scans the table and takes the first entry whose opcode bits match. For every entry k:
+// a word that matches k and no earlier entry decodes to k with the operand fields of k's format
+// (registers as register operands, signed fields sign-extended, branch offsets sign-extended and <<2).
+// Together with the encoder contract this gives decode(encode(k, ops)) == (k, ops) up to the
+// documented aliasing of signed immediates given as unsigned values.
+
+//@ func decodeInst
+//@   transparent
+//@   loop 0 unroll 420
+//@ func (_OpContextType).decodeInst
+//@   transparent
+
+//@ spec la_match(k abi.As, x uint32) bool := la_mask(k) != 0 && x & la_mask(k) == la_value(k)
+//@ spec RI(n uint32) abi.RegType := abi.RegType(n) + REG_R0
+//@ spec RF(n uint32) abi.RegType := abi.RegType(n) + REG_F0
+//@ spec RC(n uint32) abi.RegType := abi.RegType(n) + REG_FCC0
+//@ spec RS(n uint32) abi.RegType := abi.RegType(n) + REG_FCSR0
+//@ spec sx(v uint32, n uint32) int32 := (int32(v) << (32 - n)) >> (32 - n)
+
+// operands a decoder must return for a word x of entry k (k constant in every use: only the clauses of
+// k's format remain after folding)
+//@ spec in20(f OpFormatType) bool := f == OpFormatType_2R || f == OpFormatType_1R_1F || f == OpFormatType_3R || f == OpFormatType_2R_ui5 || f == OpFormatType_2R_ui6 || f == OpFormatType_2R_si12 || f == OpFormatType_2R_ui12 || f == OpFormatType_2R_si14 || f == OpFormatType_1R_si20 || f == OpFormatType_3R_sa2 || f == OpFormatType_3R_sa3 || f == OpFormatType_2R_msbw_lsbw || f == OpFormatType_2R_msbd_lsbd || f == OpFormatType_1R_fcsr || f == OpFormatType_1R_cj || f == OpFormatType_1R_csr || f == OpFormatType_2R_csr || f == OpFormatType_2R_level || f == OpFormatType_rj_rd_offset || f == OpFormatType_rd_rj_offset
+//@ spec in_fd(f OpFormatType) bool := f == OpFormatType_2F || f == OpFormatType_1F_1R || f == OpFormatType_3F || f == OpFormatType_1F_2R || f == OpFormatType_4F || f == OpFormatType_1F_1R_si12 || f == OpFormatType_1F_cj || f == OpFormatType_3F_ca
+//@ spec in_rj(f OpFormatType) bool := f == OpFormatType_2R || f == OpFormatType_1F_1R || f == OpFormatType_3R || f == OpFormatType_1F_2R || f == OpFormatType_2R_ui5 || f == OpFormatType_2R_ui6 || f == OpFormatType_2R_si12 || f == OpFormatType_1F_1R_si12 || f == OpFormatType_2R_ui12 || f == OpFormatType_2R_si14 || f == OpFormatType_0_2R || f == OpFormatType_3R_sa2 || f == OpFormatType_3R_sa3 || f == OpFormatType_code_1R_si12 || f == OpFormatType_2R_msbw_lsbw || f == OpFormatType_2R_msbd_lsbd || f == OpFormatType_fcsr_1R || f == OpFormatType_cd_1R || f == OpFormatType_2R_csr || f == OpFormatType_2R_level || f == OpFormatType_0_1R_seq || f == OpFormatType_op_2R || f == OpFormatType_hint_1R_si12 || f == OpFormatType_hint_2R || f == OpFormatType_rj_offset || f == OpFormatType_rj_rd_offset || f == OpFormatType_rd_rj_offset
+//@ spec in_fj(f OpFormatType) bool := f == OpFormatType_2F || f == OpFormatType_1R_1F || f == OpFormatType_3F || f == OpFormatType_4F || f == OpFormatType_cd_1F || f == OpFormatType_cd_2F || f == OpFormatType_3F_ca
+//@ spec in_rk(f OpFormatType) bool := f == OpFormatType_3R || f == OpFormatType_1F_2R || f == OpFormatType_0_2R || f == OpFormatType_3R_sa2 || f == OpFormatType_3R_sa3 || f == OpFormatType_op_2R || f == OpFormatType_hint_2R
+//@ spec in_fk(f OpFormatType) bool := f == OpFormatType_3F || f == OpFormatType_4F || f == OpFormatType_cd_2F || f == OpFormatType_3F_ca
+//@ spec in_si12(f OpFormatType) bool := f == OpFormatType_2R_si12 || f == OpFormatType_1F_1R_si12 || f == OpFormatType_code_1R_si12 || f == OpFormatType_hint_1R_si12
+//@ spec in_op5(f OpFormatType) bool := f == OpFormatType_code_1R_si12 || f == OpFormatType_hint_1R_si12 || f == OpFormatType_op_2R || f == OpFormatType_hint_2R
+
+//@ spec dec_regs(f OpFormatType, x uint32, arg *abi.AsArgument) bool :=
+//@      (in20(f) ==> arg.Rd == RI(f_d(x))) && (in_fd(f) ==> arg.Rd == RF(f_d(x))) &&
+//@      (in_rj(f) ==> arg.Rs1 == RI(f_j(x))) && (in_fj(f) ==> arg.Rs1 == RF(f_j(x))) &&
+//@      (in_rk(f) ==> arg.Rs2 == RI(f_k(x))) && (in_fk(f) ==> arg.Rs2 == RF(f_k(x))) &&
+//@      (f == OpFormatType_4F ==> arg.Rs3 == RF(f_a(x))) &&
+//@      (in_op5(f) ==> uint32(arg.Rd) == f_d(x)) &&
+//@      (f == OpFormatType_2R_msbw_lsbw ==> uint32(arg.Rs2) == fld(x, 16, 5) && uint32(arg.Rs3) == fld(x, 10, 5)) &&
+//@      (f == OpFormatType_2R_msbd_lsbd ==> uint32(arg.Rs2) == fld(x, 16, 6) && uint32(arg.Rs3) == fld(x, 10, 6)) &&
+//@      (f == OpFormatType_fcsr_1R ==> arg.Rd == RS(f_d(x))) && (f == OpFormatType_1R_fcsr ==> arg.Rs1 == RS(f_j(x))) &&
+//@      (f == OpFormatType_cd_1R || f == OpFormatType_cd_1F || f == OpFormatType_cd_2F ==> arg.Rd == RC(fld(x, 0, 3))) &&
+//@      (f == OpFormatType_1R_cj || f == OpFormatType_1F_cj || f == OpFormatType_cj_offset ==> arg.Rs1 == RC(fld(x, 5, 3)))
+//@ spec dec_imm(f OpFormatType, x uint32, arg *abi.AsArgument) bool :=
+//@      (f == OpFormatType_2R_ui5 ==> arg.Imm == int32(fld(x, 10, 5))) && (f == OpFormatType_2R_ui6 ==> arg.Imm == int32(fld(x, 10, 6))) &&
+//@      (in_si12(f) ==> arg.Imm == sx(fld(x, 10, 12), 12)) && (f == OpFormatType_2R_ui12 ==> arg.Imm == int32(fld(x, 10, 12))) &&
+//@      (f == OpFormatType_2R_si14 ==> arg.Imm == sx(fld(x, 10, 14), 14)) && (f == OpFormatType_1R_si20 ==> arg.Imm == sx(fld(x, 5, 20), 20)) &&
+//@      (f == OpFormatType_3R_sa2 ==> arg.Imm == int32(fld(x, 15, 2))) && (f == OpFormatType_3R_sa3 ==> arg.Imm == int32(fld(x, 15, 3))) &&
+//@      (f == OpFormatType_code || f == OpFormatType_level || f == OpFormatType_hint ==> arg.Imm == int32(fld(x, 0, 15))) &&
+//@      (f == OpFormatType_1R_csr || f == OpFormatType_2R_csr ==> arg.Imm == int32(fld(x, 10, 14))) &&
+//@      (f == OpFormatType_2R_level || f == OpFormatType_0_1R_seq ==> arg.Imm == int32(fld(x, 10, 8))) &&
+//@      (f == OpFormatType_3F_ca ==> arg.Imm == int32(fld(x, 15, 3))) &&
+//@      (f == OpFormatType_cj_offset || f == OpFormatType_rj_offset ==> arg.Imm == sx((fld(x, 0, 5) << 16) | fld(x, 10, 16), 21) << 2) &&
+//@      (f == OpFormatType_rj_rd_offset || f == OpFormatType_rd_rj_offset ==> arg.Imm == sx(fld(x, 10, 16), 16) << 2) &&
+//@      (f == OpFormatType_offset ==> arg.Imm == sx((fld(x, 0, 10) << 16) | fld(x, 10, 16), 26) << 2)
+
+//@ spec first_match(k abi.As, x uint32) bool := la_match(k, x) && (forall j in 1..k :: !la_match(j, x))
+
+//@ func DecodeEx
+//@   ensures[as]   foreach k in keys(_AOpContextTable) :: first_match(k, x) ==> err == nil && as == k
+//@   ensures[regs] foreach k in keys(_AOpContextTable) :: first_match(k, x) ==> dec_regs(la_fmt(k), x, arg)
+//@   ensures[imm]  foreach k in keys(_AOpContextTable) :: first_match(k, x) ==> dec_imm(la_fmt(k), x, arg)
+//@   property C17
